@@ -1,6 +1,7 @@
 CONSTANTS
   Sigma = {"0", "1", "7", "9", "a", "e", "f", "_", ".", "+", "-", "x", "X", "o", "b", "p", "E", "i"}
   L = 4
+  LH = 5
   StrMode = "quick"
 INIT Init
 NEXT Next
